@@ -151,13 +151,17 @@ class Parser:
         self.expect(")")
         ret = ""
         if self.accept("->"): ret = self.type_str(("{", "where", ";"))
-        if self.at("where"): self.type_str(("{", ";"))
+        where = ""
+        if self.at("where"): where = self.type_str(("{", ";"))
         if self.accept(";"): body = None
         else:
             b0 = self.p
-            body = self.block()
-            self.body_tokens = self.t[b0:self.p]
-        return dict(name=name, owner=owner, generics=generics, params=params, ret=ret, body=body, attrs=attrs,
+            try:
+                body = self.block()
+            except Unsupported as e:
+                self.p = b0; self.skip_balanced("{", "}")
+                body = ("unparsed", str(e))
+        return dict(name=name, owner=owner, generics=generics, params=params, ret=ret, body=body, attrs=attrs, where=where,
                     tokens=" ".join(x[1] for x in self.t[b0:self.p]) if body is not None else "")
 
     # ---- blocks, statements ----
@@ -274,6 +278,11 @@ class Parser:
             self.next(); self.accept("mut"); return ("ref", self.unary(no_struct))
         if v == "&&":
             self.next(); return ("ref", ("ref", self.unary(no_struct)))
+        if v in ("..", "..="):
+            self.next()
+            rhs = None
+            if not (self.at(")") or self.at("]") or self.at(";") or self.at(",")): rhs = self.expr(no_struct, 1)
+            return ("range", None, rhs, v == "..=")
         return self.postfix(self.primary(no_struct), no_struct)
     def args(self, close=")"):
         a = []
@@ -390,7 +399,7 @@ def derive_structs(src):
             P.next()
             if P.at("("): P.skip_balanced("(", ")")
             continue
-        if v in ("struct", "enum") and any(re.search(r"derive \(.*\bNom\b", a) for a in attrs):
+        if v in ("struct", "enum") and any(re.search(r"derive \(.*\bNom(BE|LE)?\b", a) for a in attrs):
             kind = v; P.next(); name = P.next()[1]
             if P.at("<"): P.type_str_generic()
             item = dict(name=name, kind=kind, attrs=attrs, fields=[], tuple=False)
